@@ -448,9 +448,12 @@ def make_small(folder, case, fs, rng, env=None):
         for f in (cbin, binfile.with_suffix(".ch")):
             if f.exists():
                 f.unlink()
-        nchunk = 5
-        mtscomp.compress(binfile, cbin, binfile.with_suffix(".ch"), sample_rate=fs, n_channels=nc, dtype=np.int16,
-                         chunk_duration=nchunk / fs, n_threads=1, check_after_compress=False)
+        nchunk = case.get("nchunk", 5)
+        # "chrate": the rate written into the .ch header - compression from the command line names the nominal rate
+        # (30000 Hz) while the metadata carries the calibrated one (30003.0003 Hz): the metadata's rate is the recording's
+        crate = float(case["chrate"]) if case.get("chrate") else fs
+        mtscomp.compress(binfile, cbin, binfile.with_suffix(".ch"), sample_rate=crate, n_channels=nc, dtype=np.int16,
+                         chunk_duration=nchunk / crate, n_threads=1, check_after_compress=False)
         binfile.unlink()
         chop = case.get("chop", 0)
         if chop:
@@ -686,6 +689,12 @@ def scenarios(ctx, exported):
                 fs = rnd.choice(FS_ALL)
                 case = {"kind": "cbin", "F": F, "q": q0, "r": 0, "meta": m, "quiet": bool((q0 + m) % 2)}
                 out.append({"case": case, "fs": fs, "seed": rnd.randrange(2 ** 31), "env": _env(rnd, case)})
+            if q0 in (7, 10):
+                # long enough for a difference between the rate in the .ch header and the metadata's to reach half a sample
+                for qq, fsx, cr in ((6000 + q0, 30003.0003, 30000), (4000 + q0, 2500.2, 2500)):
+                    case = {"kind": "cbin", "F": F if F == 10 else 12, "q": qq, "r": 0, "meta": qq + rnd.choice([-9, 3, 40]),
+                            "quiet": bool(q0 % 2), "nchunk": 1000, "chrate": cr}
+                    out.append({"case": case, "fs": fsx, "seed": rnd.randrange(2 ** 31), "env": _env(rnd, case)})
             nchunks = -(-q0 // 5)
             for chop in range(1, nchunks):
                 out.append({"case": {"kind": "cbin", "F": F, "q": chop * 5, "r": 0, "meta": q0, "quiet": bool(chop % 2),
